@@ -26,7 +26,7 @@ CONSTANTS KemSet, KdfSet, AeadSet, ModeSet,
 (******************************* keys **************************************)
 Ikm(name, kem) == Leaf("ikm" \o name \o ToString(kem), Nsk(kem))
 KP(name, kem)  == DeriveKeyPair(kem, Ikm(name, kem))
-Rng(name, kem) == Leaf("rng" \o name \o ToString(kem), Nsk(kem) + 3)   \* 3 spare bytes: must stay undrawn
+Rng(name, kem) == Leaf("rng" \o name \o ToString(kem), Nsk(kem) + 70)  \* spare bytes: must stay undrawn (C02, C03 check that)
 
 \* all named key pairs a behaviour may mention, for the replay prologue
 KeyNames == {"R1", "R2", "S1", "S2", "E2"}
